@@ -337,10 +337,34 @@ func (w *World) encFound(srs *core.SearchResults) []map[string]interface{} {
 }
 
 // Do executes one operation on the real code and records it.
+// HangLimit: how long one sequential operation may take before the harness gives up on it.  A call
+// into rulio that does not come back (a lock left held, say) ends the driver with a VERIF-HANG line,
+// which the check reports as a violation once it reproduces.
+var HangLimit = 45 * time.Second
+
 func (w *World) Do(op Op) Res {
-	res, ev := w.Exec(op, true)
-	w.Events = append(w.Events, ev)
-	return res
+	type out struct {
+		res Res
+		ev  map[string]interface{}
+	}
+	ch := make(chan out, 1)
+	go func() {
+		res, ev := w.Exec(op, true)
+		ch <- out{res, ev}
+	}()
+	select {
+	case o := <-ch:
+		w.Events = append(w.Events, o.ev)
+		return o.res
+	case <-time.After(HangLimit):
+		id := op.Id
+		if len(id) > 60 {
+			id = id[:20] + "..."
+		}
+		fmt.Fprintf(os.Stderr, "VERIF-HANG %s@%s id=%s did not return within %v (state %s, after %d operations)\n", op.Op, op.Loc, id, HangLimit, w.Cfg.State, len(w.Events))
+		os.Exit(4)
+	}
+	return Res{}
 }
 
 // Exec performs op on the real code and returns its event without recording it.
